@@ -28,7 +28,7 @@ LEVEL_NOTE = ('Finite value alphabets; sums reorder under permutation, so permut
 RULE = ("cases: (kind, configuration, chunk); executions: Fitter.fit calls compared pairwise; for histories a state is (fitter canonical hash, history) and a transition one fit; "
         "non-trivial = distinct non-identity permutations / constants != 1 / histories of length >= 2")
 ASSUMPTIONS = ["finite value alphabets", "canonical encoding of Fitter covers all state that can influence a fit (models.fluxes, names, wavelengths, distances, logd, extended, av_law, sc_law, av_range, filters)"]
-REQUIRED_CLASSES = ['filter-perm-with-unused-band-and-resolved-removal', 'two-fitters-built-before-either-is-used', 'model-perm-hundreds-of-models', 'filter-list-mixes-names-and-wavelengths', 'history-on-package-with-a-dead-model', 'history-same-flags-different-photometry', 'integer-typed-photometry', 'earlier-results-rechecked', 'both-limit-kinds-different-confidence', 'filter-perm', 'model-perm-files', 'brightness-constant', 'history-len3', 'history-repeat-same-source', 'mode-2d', 'mode-3d', 'float32-path',
+REQUIRED_CLASSES = ['history-of-faint-sources', 'filter-perm-with-unused-band-and-resolved-removal', 'two-fitters-built-before-either-is-used', 'model-perm-hundreds-of-models', 'filter-list-mixes-names-and-wavelengths', 'history-on-package-with-a-dead-model', 'history-same-flags-different-photometry', 'integer-typed-photometry', 'earlier-results-rechecked', 'both-limit-kinds-different-confidence', 'filter-perm', 'model-perm-files', 'brightness-constant', 'history-len3', 'history-repeat-same-source', 'mode-2d', 'mode-3d', 'float32-path',
                     'source-with-limits', 'source-all-flag4']
 TIMEOUT = {'quick': 600, 'thorough': 3000}
 
@@ -64,6 +64,9 @@ def setup(tier, seed):
             # histories on a package in which one model emits nothing in one band (its rows are undefined, and must stay so)
             for s0 in ((0, 3) if tier == 'quick' else range(N_SRC)):
                 out.append({'kind': 'hist', 'mode': mode, 'variant': iv, 'first_source': s0, 'dead': True})
+            # histories of very faint sources (photometry of order 1e-8 mJy): different sources, however close in absolute terms
+            for s0 in ((0, 6) if tier == 'quick' else range(N_SRC)):
+                out.append({'kind': 'hist', 'mode': mode, 'variant': iv, 'first_source': s0, 'faint': True})
             # scale: a few hundred models, scrambled and reversed (most of them clipped at an end of the A_V range)
             if iv != 1 or tier == 'thorough':
                 out.append({'kind': 'mperm', 'mode': mode, 'variant': iv, 'k': 300 if tier == 'quick' else 700, 'first': 0, 'count': 2, 'big': True})
@@ -185,7 +188,7 @@ def run_case(ctx, case, rec, d):
 
     if kind == 'fperm':
         kf = case['k']
-        bands_all = ['B1', 'B2', 'B3', 'B4', 'B5', 'B6'][:kf]
+        bands_all = ['B1', 'K', 'Ks', 'B4', 'B5', 'B6'][:kf]          # (K and Ks: names that extend one another)
         names = fc.names_for(4)
         md, f, ap = _build(d, 'pkg', mode, fmt, names, bands_all, seed, ext_band=(1 if mode == '3d' else None))
         kk = fc.law_k('power', [fc.BAND_WAV[b] for b in bands_all])
@@ -294,7 +297,9 @@ def run_case(ctx, case, rec, d):
             rec.cls('history-on-package-with-a-dead-model')
         kk = fc.law_k('power', [fc.BAND_WAV[b] for b in B4])
         base = (f[3] if mode == '2d' else f[3][:, 1]) * 10 ** (1.1 * kk) * (2.0 if mode == '2d' else 0.7)
-        srcs = _sources(seed, base, mode)
+        srcs = _sources(seed, base * (1e-9 if case.get('faint') else 1.0), mode)
+        if case.get('faint'):
+            rec.cls('history-of-faint-sources')
         rec.cls('source-with-limits')
         rec.cls('source-all-flag4')
         fresh = []
